@@ -10,7 +10,7 @@ from vf import gen, ref, popgen, stats
 from vf.core import spec_key
 
 ID = 'C06'
-BUDGET = {'quick': 320, 'thorough': 20000}
+BUDGET = {'quick': 480, 'thorough': 20000}
 RULE = (
     'Hypothesis draws either an error-model case (kind in {gauss,mult,cm,lognorm}, optionally wrapped in a '
     'ReducedErrorModel with a fixed subset, 1-5 pairwise distinct positive model outputs in [0.1,50], scales '
@@ -40,7 +40,7 @@ ASSUMPTIONS = [
     'reference layout assigns to that leaf (wrappers\' transforms are C05/C07)']
 REQUIRED = ['em:gauss', 'em:mult', 'em:cm', 'em:lognorm', 'em:reduced', 'steer:cm', 'pop:gauss', 'pop:lognorm',
             'pop:trunc', 'pop:pooled', 'pop:hetero', 'noncentered', 'cov', 'comp', 'red', 'steer:trunc', 'trunc_far_tail',
-            'covmode:tile', 'covmode:rows']
+            'covmode:tile', 'covmode:rows', 'cov_units:tiny:tile']
 EM_KINDS = ['gauss', 'mult', 'cm', 'lognorm']
 SEEDS = st.integers(0, 2 ** 31 - 2)
 
@@ -152,7 +152,7 @@ def _theta(draw, spec, n_ids, cov):
                 b = 0.5 * f / (n_cov * cmax[c])
             else:
                 b = 2.0 * f * th0[nd + d] / (n_cov * cmax[c])      # Gaussian mean shifts by <= 1.8 sigma
-            beta.append(gen.r6(b))
+            beta.append(gen.sig6(b))
     return th0 + beta
 
 
@@ -165,8 +165,8 @@ def _pop_case(draw):
     covmode = None
     if n_cov:
         R = draw(st.integers(1, 3))
-        cov = popgen.draw_cov_matrix(draw, R, n_cov)
-        covmode = draw(st.sampled_from(['tile', 'rows']))
+        cov = popgen.draw_cov_matrix(draw, R, n_cov, units=0.35)
+        covmode = draw(st.sampled_from(['tile', 'tile', 'rows']))
     theta = _theta(draw, pop, n_ids, cov)
     if len(theta) >= 2 and gen.chance(draw, 0.2):
         fixed = draw(gen.subset(len(theta), min_size=1, max_size=len(theta) - 1))
@@ -294,6 +294,11 @@ def classify(spec):
         if popgen.has(pop, k):
             labs.append(k)
     if spec['covmode']:
+        mx = max(abs(v) for row in spec['cov'] for v in row)
+        if 0 < mx < 1e-5 and len(spec['cov']) >= 2:
+            labs.append('cov_units:tiny')
+            if spec['covmode'] == 'tile':
+                labs.append('cov_units:tiny:tile')
         labs.append('covmode:' + spec['covmode'])
         labs.append('cov_rows=%d' % len(spec['cov']))
     for lf in leaf_table(pop, spec['n_ids'], spec['theta'], spec['cov']):
